@@ -5,6 +5,8 @@ shard: steps = list of "A" | "B" (data frame from sender A / B) | "sub0" | "sub1
                | "timing" | "traffic" | "info" (periodic / manager-originated messages)
        rsub  = per recipient 0: subscribed to tA, 1: to tB, 2: to ALL, 3: to tA and tB
        xdrop = 1: a third module subscribed to tA is not ready, so every A frame also produces a FAILED_MESSAGE
+       r0new = 1: recipient 0 has not completed the handshake yet (frames are forwarded to it all the same); a "conn0" step is its
+               CONNECT (-> ACK): the numbering of its connection must run on across the handshake
        r0skip = list of step indices at which recipient 0 is NOT ready to accept data (what is due to it then is dropped and
                 reported, not written): the frames it does get afterwards must still be numbered without a gap
 symbolic: tA, tB (data types), payload sizes nA, nB 0..65535, the recipients' msg_count before the sequence,
@@ -30,6 +32,9 @@ def scenario(tA, tB, nA, nB, c0, c1, ts):
     for k, m in enumerate(mods):
         m.connected = True
         m.mod_id = 10 + k
+    if sh("r0new", 0):
+        R[0].connected = False
+        R[0].mod_id = 0
     pre = [c0, c1]
     for k in range(2):
         R[k].msg_count = pre[k]
@@ -61,6 +66,10 @@ def scenario(tA, tB, nA, nB, c0, c1, ts):
                 W.set_incoming(mm, dict(msg_type=cd.MT_SUBSCRIBE, src_mod_id=r.mod_id, num_data_bytes=4, reserved=tag),
                                ("MDF_SUBSCRIBE", dict(msg_type=ts)))
                 mm.process_message(r)
+            elif st == "conn0":
+                W.set_incoming(mm, dict(msg_type=cd.MT_CONNECT, src_mod_id=10, num_data_bytes=4, reserved=tag),
+                               ("MDF_CONNECT", dict(logger_status=0, daemon_status=0)))
+                mm.process_message(R[0])
             elif st == "timing":
                 mm.send_timing_message()
             elif st == "traffic":
